@@ -1008,6 +1008,13 @@ func (env *Env) evalCall(e *Expr) Val {
 		}
 		a := c.heapGet(env.st, elemArrayName(el, ""), arr2Sort(lv[0].sort))
 		return mkOpaque("(select "+a+" "+x.Fs[0].T+")", arrSort(lv[0].sort))
+	case "baseof":
+		// baseof(s): the backing array object of slice s (0 for a nil slice)
+		x := env.eval(e.Args[0])
+		if x.K != KSlice {
+			fail("%s: baseof of non-slice", e.Pos)
+		}
+		return mkInt(x.Fs[0].T, nil)
 	case "offof":
 		x := env.eval(e.Args[0])
 		if x.K != KSlice {
